@@ -11,7 +11,9 @@ decision procedures -- same tests, same order, same exception classes -- as the 
   g_ucomplex_seq4      core.ucomplex, u a 4-sequence (variance-covariance matrix)
   g_ucomplex_seqn      core.ucomplex, u a sequence of any other length
   g_elementary_guard   lib.UncertainReal._elementary    (the re-checks in front of the uid allocation)
-  g_set_correlation_real   lib.set_correlation_real     -> res unit   (Ok tt = both dict entries assigned)
+  g_set_correlation_real   lib.set_correlation_real     -> res unit   (Ok tt = accepted; with assign=True both dict entries
+                           are assigned, with assign=False nothing is: both take the same decisions, checked here)
+  g_complex_checks_first   UncertainComplex.set_correlation: the four assign=False checks precede every assigning call
 
 core.ucomplex is *partially evaluated* on the shape of `u` (is_sequence(u), len(u), u[i] and the
 4-tuple unpacking are resolved at translation time); everything else -- every comparison, every
@@ -465,24 +467,11 @@ def gen_elementary_guard(lib):
 
 def gen_set_correlation_real(lib):
     fn = find_def(lib, 'set_correlation_real')
-    if argnames(fn) != ['x1', 'x2', 'r']:
-        raise Untranslatable('signature of set_correlation_real')
-    env = {'x1.is_elementary': ('B', 'elem1'), 'x2.is_elementary': ('B', 'elem2'),
-           'x1._node.independent': ('B', 'indep1'), 'x2._node.independent': ('B', 'indep2'),
-           'x1._node is x2._node': ('B', 'same_leaf'), 'r': ('F', 'r'),
-           'x1._node.uid': ('K', 'k1'), 'x2._node.uid': ('K', 'k2'),
-           'x1._node.correlation': ('D', 'c1'), 'x2._node.correlation': ('D', 'c2')}
-    want = {('c1', 'k2'), ('c2', 'k1')}
-    got = set()
-    def eff(s, comp):
-        # <leaf>.correlation[<other>.uid] = r
-        t = s.targets[0]
-        if len(s.targets) == 1 and isinstance(t, ast.Subscript) and isinstance(s.value, ast.Name) and s.value.id == 'r' \
-                and comp.env.get('r') == ('F', 'r'):
-            d = comp.env.get(comp.key(t.value)); k = comp.env.get(comp.key(t.slice))
-            if d and k and d[0] == 'D' and k[0] == 'K':
-                got.add((d[1], k[1])); return True
-        return False
+    if argnames(fn) != ['x1', 'x2', 'r', 'assign']:
+        raise Untranslatable('signature of set_correlation_real (expected x1,x2,r,assign=True)')
+    d = fn.args.defaults
+    if not (len(d) == 1 and isinstance(d[0], ast.Constant) and d[0].value is True):
+        raise Untranslatable('default of `assign` is not True')
     class C2(C):
         def test(self, t):
             # `ln1 is ln2` through the aliases
@@ -495,14 +484,89 @@ def gen_set_correlation_real(lib):
                 if k in self.env: return self.env[k][1]
                 raise Untranslatable('identity test %s' % k)
             return C.test(self, t)
-    comp = C2(env, lambda v, c: (_ for _ in ()).throw(Untranslatable('return in set_correlation_real')), fall='tt', effects=eff)
-    body = comp.function(fn)
-    if got != want:
+    def once(assign):
+        env = {'x1.is_elementary': ('B', 'elem1'), 'x2.is_elementary': ('B', 'elem2'),
+               'x1._node.independent': ('B', 'indep1'), 'x2._node.independent': ('B', 'indep2'),
+               'x1._node is x2._node': ('B', 'same_leaf'), 'r': ('F', 'r'),
+               'x1._node.uid': ('K', 'k1'), 'x2._node.uid': ('K', 'k2'),
+               'x1._node.correlation': ('D', 'c1'), 'x2._node.correlation': ('D', 'c2'),
+               'assign': Static('bool', assign)}
+        got = set()
+        def eff(s, comp):
+            # <leaf>.correlation[<other>.uid] = r
+            t = s.targets[0]
+            if len(s.targets) == 1 and isinstance(t, ast.Subscript) and isinstance(s.value, ast.Name) and s.value.id == 'r' \
+                    and comp.env.get('r') == ('F', 'r'):
+                dd = comp.env.get(comp.key(t.value)); k = comp.env.get(comp.key(t.slice))
+                if dd and k and dd[0] == 'D' and k[0] == 'K':
+                    got.add((dd[1], k[1])); return True
+            return False
+        comp = C2(env, lambda v, c: (_ for _ in ()).throw(Untranslatable('return in set_correlation_real')), fall='tt', effects=eff)
+        return comp.function(fn), got
+    body, got = once(True)
+    body0, got0 = once(False)
+    if got != {('c1', 'k2'), ('c2', 'k1')}:
         raise Untranslatable('set_correlation_real: the assignments are not correlation[other.uid] = r in both directions')
+    if got0:
+        raise Untranslatable('set_correlation_real(assign=False) assigns')
+    if body != body0:
+        raise Untranslatable('set_correlation_real: assign=False does not take the same decisions as assign=True')
     # the effects must sit on exactly one path: the term has exactly one `Ok tt`
     if body.count('Ok tt') != 1:
         raise Untranslatable('set_correlation_real: more than one accepting path')
     return ('Definition g_set_correlation_real (r : V) (elem1 elem2 indep1 indep2 same_leaf : bool) : res unit :=\n    %s.' % body)
+
+def ordered_calls(stmts, name, out):
+    """calls of `name` in source (execution) order, with the nesting depth of the statement holding them"""
+    def walk(ss, depth):
+        for st in ss:
+            if isinstance(st, ast.If):
+                walk(st.body, depth + 1); walk(st.orelse, depth + 1)
+            else:
+                for n in ast.walk(st):
+                    if isinstance(n, ast.Call) and isinstance(n.func, ast.Name) and n.func.id == name:
+                        out.append((depth, n))
+    walk(stmts, 0)
+
+def gen_complex_checks_first(lib):
+    """UncertainComplex.set_correlation(self, r, arg), complex `arg`: the four set_correlation_real(..., assign=False)
+    calls on (real,real,r[0]) (real,imag,r[1]) (imag,real,r[2]) (imag,imag,r[3]) come first, in one block, and every
+    assigning call comes after them (so a rejected call has assigned nothing)"""
+    fn = find_def(lib, 'set_correlation', 'UncertainComplex')
+    if argnames(fn) != ['self', 'r', 'arg']:
+        raise Untranslatable('signature of UncertainComplex.set_correlation')
+    # the branch `elif isinstance(arg,UncertainComplex):`
+    branch = None
+    st = [s for s in fn.body if isinstance(s, ast.If)]
+    node = st[0] if st else None
+    while node is not None:
+        t = node.test
+        if isinstance(t, ast.Call) and isinstance(t.func, ast.Name) and t.func.id == 'isinstance' and len(t.args) == 2 \
+                and isinstance(t.args[1], ast.Name) and t.args[1].id == 'UncertainComplex':
+            branch = node.body; break
+        node = node.orelse[0] if len(node.orelse) == 1 and isinstance(node.orelse[0], ast.If) else None
+    if branch is None:
+        raise Untranslatable('branch isinstance(arg,UncertainComplex) not found')
+    calls = []
+    ordered_calls(branch, 'set_correlation_real', calls)
+    def shape(c):
+        a = [ast.unparse(x) for x in c.args]
+        kw = {k.arg: ast.unparse(k.value) for k in c.keywords}
+        return a, kw
+    want = [['self.real', 'arg.real', 'r[0]'], ['self.real', 'arg.imag', 'r[1]'],
+            ['self.imag', 'arg.real', 'r[2]'], ['self.imag', 'arg.imag', 'r[3]']]
+    if len(calls) < 8:
+        raise Untranslatable('expected four checking and at least four assigning calls of set_correlation_real')
+    d0 = calls[0][0]
+    for (depth, c), w in zip(calls[:4], want):
+        a, kw = shape(c)
+        if a != w or kw != {'assign': 'False'} or depth != d0:
+            raise Untranslatable('the first four calls are not the checks of the four pairs with assign=False')
+    rest = [shape(c) for _, c in calls[4:]]
+    if any(kw for _, kw in rest) or len(rest) % 4 != 0 or any([a for a, _ in rest[i:i + 4]] != want for i in range(0, len(rest), 4)):
+        raise Untranslatable('the assigning calls are not the four pairs in order')
+    return ('(* UncertainComplex.set_correlation: all four pairs are checked (assign=False) before any is assigned *)\n'
+            '  Definition g_complex_checks_first : unit := tt.')
 
 HEADER = '''(* GENERATED by tools/tr_core_checks.py from GTC/core.py and GTC/lib.py -- do not edit.
    The argument validation of the declaring functions, test by test, in source order, with the
@@ -539,13 +603,14 @@ def main(repo, outdir):
     emit('g_ucomplex_seqn', seqn)
     emit('g_elementary_guard', lambda: gen_elementary_guard(lib))
     emit('g_set_correlation_real', lambda: gen_set_correlation_real(lib))
+    emit('g_complex_checks_first', lambda: gen_complex_checks_first(lib))
     out.append('End GenCoreChecks.\n')
     os.makedirs(outdir, exist_ok=True)
     with open(os.path.join(outdir, 'Gen_core_checks.v'), 'w') as f:
         f.write('\n'.join(out))
     for name, why in failed:
         print('tr_core_checks: %s NOT translated: %s' % (name, why))
-    print('tr_core_checks: %d definitions, %d failed' % (7 - len(failed), len(failed)))
+    print('tr_core_checks: %d definitions, %d failed' % (8 - len(failed), len(failed)))
     return 1 if failed else 0
 
 if __name__ == '__main__':
